@@ -73,15 +73,19 @@ fn lookup_reply(s: &Scn, inc: &Incoming, tokenless: &[bool]) -> Reply {
 pub struct PutRun {
     pub puts: Vec<(usize, u32, Vec<u8>)>, // peer, tid, token carried
     pub tokens_ok: bool,
+    /// peers that answered the lookup with a write token (a lookup asks at most the 20 closest it knows)
+    pub gave_token: Vec<usize>,
 }
 
 /// drive the lookup of a put to its end, withholding the answers to the store requests
 pub fn drive_lookup(s: &mut Scn, tokenless: &[bool]) -> PutRun {
     let mut puts: Vec<(usize, u32, Vec<u8>)> = Vec::new();
+    let mut gave_token: Vec<usize> = Vec::new();
     let mut stable = 0;
     for _ in 0..400 {
         let before = puts.len();
         let mut newp: Vec<(usize, u32, Vec<u8>)> = Vec::new();
+        let mut gave: Vec<usize> = Vec::new();
         s.step(&mut |s, inc| {
             let req = match as_request(&inc.msg) {
                 Some(r) => r.clone(),
@@ -92,10 +96,20 @@ pub fn drive_lookup(s: &mut Scn, tokenless: &[bool]) -> PutRun {
                     newp.push((inc.peer, inc.msg.transaction_id, p.token.to_vec()));
                     Reply::Silent
                 }
-                _ if is_lookup(&req) => lookup_reply(s, inc, tokenless),
+                _ if is_lookup(&req) => {
+                    if !tokenless[inc.peer] {
+                        gave.push(inc.peer);
+                    }
+                    lookup_reply(s, inc, tokenless)
+                }
                 _ => s.honest(inc),
             }
         });
+        for g in gave {
+            if !gave_token.contains(&g) {
+                gave_token.push(g);
+            }
+        }
         puts.extend(newp);
         let snap = s.snap();
         if snap.iterative_queries == 0 && puts.len() == before {
@@ -108,7 +122,7 @@ pub fn drive_lookup(s: &mut Scn, tokenless: &[bool]) -> PutRun {
         }
     }
     let tokens_ok = puts.iter().all(|(p, _, tok)| !tokenless[*p] && *tok == peer_token(&s.peers[*p]));
-    PutRun { puts, tokens_ok }
+    PutRun { puts, tokens_ok, gave_token }
 }
 
 fn deliver(s: &mut Scn, peer: usize, tid: u32, act: Act) {
@@ -161,7 +175,7 @@ pub fn put_case(r: &mut Rng, n: usize, kind: u8, tokenless: Vec<bool>, script: V
     s.step(&mut |s, inc| s.honest(inc));
     let extra = rx.try_recv().is_ok();
     let sent: Vec<String> = run.puts.iter().map(|(p, _, _)| p.to_string()).collect();
-    let n_tokenful = tokenless.iter().filter(|t| !**t).count();
+    let n_tokenful = run.gave_token.len();
     format!(
         "KPut {} [{}] [{}] {} {} {} {}",
         boolean(kind == 1),
